@@ -579,6 +579,7 @@ Section WithCodec.
     lens_valid 7 (cl_hist litlens distlens) (generate 7 (cl_hist litlens distlens)) ->
     Forall (tok_coded litlens distlens) ts ->
     toks_ok 32768 (oavail st) ts ->
+    oavail st <= N.of_nat (length (rout st)) ->
     let B := header_bits litlens distlens last ++
              flat_map (token_bits (gen_codes litlens) (gen_codes distlens)) ts ++
              sym_word (gen_codes litlens) 256 in
@@ -586,7 +587,7 @@ Section WithCodec.
     = close (if last then 1 else 0) (apply_toks ts st) (mkbs rest (p + N.of_nat (length B)))
     /\ (3 <= length B)%nat.
   Proof.
-    intros L1 L2 F1 F2 O1 O2 H256 Hcl Hcoded Htok B.
+    intros L1 L2 F1 F2 O1 O2 H256 Hcl Hcoded Htok Hav B.
     set (T := flat_map (token_bits (gen_codes litlens) (gen_codes distlens)) ts ++
               sym_word (gen_codes litlens) 256) in *.
     destruct (Hheader litlens distlens last (T ++ rest) (p + N.of_nat 1 + N.of_nat 2)
@@ -595,7 +596,7 @@ Section WithCodec.
     pose proof (Hsymbols litlens distlens lt dt ts st rest
                          (p + N.of_nat 1 + N.of_nat 2 + N.of_nat (length body))
                          (S (length (T ++ rest) + length ts))
-                         L1 L2 Hlt Hdt H256 Hcoded Htok) as Hsym.
+                         L1 L2 Hlt Hdt H256 Hcoded Htok Hav) as Hsym.
     cbv zeta in Hsym. fold T in Hsym. specialize (Hsym ltac:(lia)).
     rewrite symbols_loop in Hsym.
     split.
@@ -622,9 +623,11 @@ Section WithCodec.
     oavail (apply_toks ts st) = oavail st + sumN (map tok_len ts).
   Proof.
     intros Htok [I1 I2].
-    destruct (Hexpand ts st Htok I1) as (E1 & E2 & E3 & _).
-    split; [split; [exact E2 | lia]|]. split; [exact E1|].
-    rewrite E2, E1, expand_rev_length. lia.
+    assert (I3 : olen st <= oavail st) by (rewrite I2; apply N.le_refl).
+    destruct (Hexpand ts st Htok I1 I3) as (E1 & E2 & E3 & _).
+    rewrite I2, N.sub_diag, N.add_0_r in E3.
+    split; [split; [exact E2 | exact E3]|]. split; [exact E1|].
+    rewrite E2, E1, expand_rev_length, I1. reflexivity.
   Qed.
 
   Lemma ev_core e n st tl :
@@ -637,6 +640,8 @@ Section WithCodec.
       trace_toks_ok 32768 tl (oavail st') /\ (3 <= length (ev_bits e n))%nat.
   Proof.
     intros Hok Htr Hinv.
+    assert (Hav : oavail st <= N.of_nat (length (rout st)))
+      by (destruct Hinv as [Hi _]; rewrite Hi; apply N.le_refl).
     destruct e as [ts l|d f| |].
     - (* EBlock *)
       cbn [event_ok] in Hok. cbn [trace_toks_ok] in Htr. destruct Htr as (Htok & Hlit & Htl).
@@ -653,16 +658,16 @@ Section WithCodec.
       assert (H256 : nthN litlens 256 <> 0).
       { destruct V1 as (_ & _ & _ & V). apply V. rewrite reduce_counts_256 by exact Llc. lia. }
       assert (Hcoded : Forall (tok_coded litlens distlens) ts).
-      { eapply coded_of_counts; eauto. }
+      { exact (coded_of_counts litlens distlens lc dc ts (oavail st) Llc Ldc Hcnt V1 V2 Htok Hlit). }
       destruct (inv_apply ts st Htok Hinv) as (I' & R' & A').
       exists (apply_toks ts st). split; [|split; [exact I' | split; [exact R' | split]]].
       + intros rest.
         destruct (dyn_block_core litlens distlens ts l st rest (N.of_nat n)
-                                 L1 L2 F1 F2 O1 O2 H256 V3 Hcoded Htok) as [Hb _].
+                                 L1 L2 F1 F2 O1 O2 H256 V3 Hcoded Htok Hav) as [Hb _].
         cbv zeta in Hb. rewrite Hb. f_equal. f_equal. lia.
       + rewrite A'. exact Htl.
       + destruct (dyn_block_core litlens distlens ts l st [] 0
-                                 L1 L2 F1 F2 O1 O2 H256 V3 Hcoded Htok) as [_ Hlen].
+                                 L1 L2 F1 F2 O1 O2 H256 V3 Hcoded Htok Hav) as [_ Hlen].
         exact Hlen.
     - (* EHBlock *)
       cbn [event_ok] in Hok. destruct Hok as [Hok Hbytes]. cbn [trace_toks_ok] in Htr.
@@ -693,14 +698,14 @@ Section WithCodec.
       exists (apply_toks (map TLit d) st). split; [|split; [exact I' | split; [exact R' | split]]].
       + intros rest.
         destruct (dyn_block_core litlens (repeat 0 30) (map TLit d) f st rest (N.of_nat n)
-                                 L1 eq_refl F1 F2 O1 eq_refl H256 V3 Hcoded Htok) as [Hb _].
+                                 L1 eq_refl F1 F2 O1 eq_refl H256 V3 Hcoded Htok Hav) as [Hb _].
         cbv zeta in Hb. rewrite flat_map_lits in Hb. rewrite Hb. f_equal. f_equal. lia.
       + destruct I' as [I1' _]. rewrite I1', R', rev_append_length.
         destruct Hinv as [I1 _]. rewrite I1 in Htr. unfold lenN in Htr.
-        replace (N.of_nat (length d + length (rout st))) with (N.of_nat (length (rout st)) + N.of_nat (length d)) by lia.
+        rewrite Nat2N.inj_add, N.add_comm.
         exact Htr.
       + destruct (dyn_block_core litlens (repeat 0 30) (map TLit d) f st [] 0
-                                 L1 eq_refl F1 F2 O1 eq_refl H256 V3 Hcoded Htok) as [_ Hlen].
+                                 L1 eq_refl F1 F2 O1 eq_refl H256 V3 Hcoded Htok Hav) as [_ Hlen].
         cbv zeta in Hlen. rewrite flat_map_lits in Hlen. exact Hlen.
     - (* ESync *)
       cbn [trace_toks_ok] in Htr. cbn [ev_bits ev_final trace_data_rev].
@@ -725,3 +730,115 @@ Section WithCodec.
         reflexivity.
       + rewrite !app_length. cbn [length]. lia.
   Qed.
+
+  (* all events of a non-final prefix are consumed one per iteration *)
+  Lemma run_prefix : forall evs tl sofar st,
+    Forall (fun e => ev_final e = false) evs -> Forall event_ok evs ->
+    trace_toks_ok 32768 (evs ++ tl) (oavail st) -> inv st ->
+    exists X st',
+      trace_bits evs sofar = sofar ++ X /\
+      (forall rest f,
+         loop block1 (length evs + f) st (mkbs (X ++ rest) (N.of_nat (length sofar)))
+         = loop block1 f st' (mkbs rest (N.of_nat (length (sofar ++ X))))) /\
+      inv st' /\ rout st' = trace_data_rev evs (rout st) /\
+      trace_toks_ok 32768 tl (oavail st').
+  Proof.
+    induction evs as [|e r IH]; intros tl sofar st Hnf Hok Htr Hinv.
+    - exists [], st. cbn [trace_bits length app Nat.add trace_data_rev].
+      rewrite app_nil_r. split; [reflexivity|]. split; [intros rest f; reflexivity|].
+      split; [exact Hinv|]. split; [reflexivity | exact Htr].
+    - inversion Hnf as [|? ? Hnf1 Hnf2]; subst. inversion Hok as [|? ? Hok1 Hok2]; subst.
+      cbn [app] in Htr.
+      destruct (ev_core e (length sofar) st (r ++ tl) Hok1 Htr Hinv)
+        as (st1 & Hstep & Hinv1 & Hr1 & Htr1 & _).
+      rewrite Hnf1 in Hstep. unfold close in Hstep. change (0 =? 1) with false in Hstep. cbv iota in Hstep.
+      set (X1 := ev_bits e (length sofar)) in *.
+      destruct (IH tl (sofar ++ X1) st1 Hnf2 Hok2 Htr1 Hinv1) as (X2 & st2 & Hb2 & Hl2 & Hinv2 & Hr2 & Htr2).
+      exists (X1 ++ X2), st2.
+      split; [|split; [|split; [exact Hinv2 | split; [|exact Htr2]]]].
+      + rewrite trace_bits_cons, trace_bits_one, (ev_pad_nonfinal e _ Hnf1), app_nil_r.
+        fold X1. rewrite Hb2, app_assoc. reflexivity.
+      + intros rest f. cbn [length Nat.add loop]. rewrite <- app_assoc, Hstep.
+        rewrite <- app_length. rewrite Hl2. rewrite app_assoc. reflexivity.
+      + rewrite Hr2, Hr1. destruct e as [ts l|d fl| |]; reflexivity.
+  Qed.
+
+  Lemma st0_inv : inv (st0 []).
+  Proof. split; reflexivity. Qed.
+
+  Lemma finish_out st s e : inv st -> out (finish st s e) = rev (rout st).
+  Proof.
+    intros [_ I2]. unfold finish. cbn [out]. rewrite I2, N.sub_diag.
+    change (N.to_nat 0) with 0%nat. cbn [skipn]. apply InflateMono.frev_rev.
+  Qed.
+
+  Theorem trace_decode : trace_decode_statement.
+  Proof.
+    intros evs Hc Hok Htr. cbv zeta.
+    destruct (trace_complete_split evs Hc) as (pre & e & Eevs & Hnf & Hfin).
+    subst evs. apply Forall_app in Hok. destruct Hok as [Hok1 Hok2].
+    inversion Hok2 as [|? ? Hoke _]; subst.
+    destruct (run_prefix pre [e] [] (st0 []) Hnf Hok1 Htr st0_inv)
+      as (X & st1 & Hb & Hl & Hinv1 & Hr1 & Htr1).
+    cbn [app length] in Hb, Hl.
+    destruct (ev_core e (length X) st1 [] Hoke Htr1 Hinv1) as (st2 & Hstep & Hinv2 & Hr2 & _ & _).
+    rewrite Hfin in Hstep. unfold close in Hstep. change (1 =? 1) with true in Hstep. cbv iota in Hstep.
+    destruct (ev_final_len e (length X) Hfin) as [Hmod Hpad].
+    set (Eb := ev_bits e (length X)) in *. set (Ep := ev_pad e (length X)) in *.
+    assert (HT : trace_bits (pre ++ [e]) [] = X ++ Eb ++ Ep).
+    { rewrite trace_bits_app, Hb, trace_bits_one. reflexivity. }
+    rewrite HT.
+    set (T := X ++ Eb ++ Ep) in *.
+    assert (HTlen : (length T mod 8 = 0)%nat).
+    { unfold T. rewrite app_length. exact Hmod. }
+    set (stream := bytes_of_bits T).
+    assert (Hbits : bits_of_bytes stream = T).
+    { unfold stream. rewrite bits_bytes_pad. apply pad8_id. exact HTlen. }
+    assert (Hslen : (8 * length stream = length T)%nat).
+    { rewrite <- bits_len, Hbits. reflexivity. }
+    rewrite (inflate_form [] stream (length pre + S (8 * length stream))) by lia.
+    unfold run, bs_of_bytes. rewrite Hbits. unfold T.
+    rewrite Hl. cbn [loop]. rewrite Hstep. cbn [fin].
+    split; [reflexivity|]. split.
+    - rewrite finish_out by exact Hinv2. rewrite Hr2, Hr1.
+      unfold trace_data. rewrite trace_data_rev_app. reflexivity.
+    - cbn [finish bitpos bp]. unfold T in Hslen. rewrite !app_length in Hslen.
+      rewrite app_length in Hmod. lia.
+  Qed.
+
+  Theorem trace_flush : trace_flush_statement.
+  Proof.
+    intros evs Hnf Hok Htr. cbv zeta.
+    assert (Hnf' : Forall (fun e => ev_final e = false) (evs ++ [ESync])).
+    { apply Forall_app. split; [exact Hnf | constructor; [reflexivity | constructor]]. }
+    assert (Hok' : Forall event_ok (evs ++ [ESync])).
+    { apply Forall_app. split; [exact Hok | constructor; [exact I | constructor]]. }
+    rewrite <- (app_nil_r (evs ++ [ESync])) in Htr.
+    destruct (run_prefix (evs ++ [ESync]) [] [] (st0 []) Hnf' Hok' Htr st0_inv)
+      as (X & st1 & Hb & Hl & Hinv1 & Hr1 & _).
+    cbn [app length] in Hb, Hl.
+    rewrite Hb.
+    assert (HXlen : (length X mod 8 = 0)%nat).
+    { rewrite <- Hb, trace_bits_app. cbn [trace_bits].
+      rewrite app_length, marker_length, pad8_eq, app_length, repeat_length.
+      pose proof (padk_mod (length (trace_bits evs [] ++ [false; false; false]))). lia. }
+    set (stream := bytes_of_bits X).
+    assert (Hbits : bits_of_bytes stream = X).
+    { unfold stream. rewrite bits_bytes_pad. apply pad8_id. exact HXlen. }
+    assert (Hslen : (8 * length stream = length X)%nat).
+    { rewrite <- bits_len, Hbits. reflexivity. }
+    assert (Hinf : inflate [] stream = finish st1 (mkbs [] (N.of_nat (length X))) NeedInput).
+    { rewrite (inflate_form [] stream (length (evs ++ [ESync]) + S (8 * length stream))) by lia.
+      unfold run, bs_of_bytes. rewrite Hbits.
+      rewrite <- (app_nil_r X) at 1. rewrite Hl. cbn [loop].
+      change (block1 st1 (mkbs [] (N.of_nat (length X))))
+        with (SStop st1 (mkbs [] (N.of_nat (length X))) NeedInput).
+      reflexivity. }
+    rewrite Hinf. split; [reflexivity|]. split.
+    - rewrite finish_out by exact Hinv1. rewrite Hr1, trace_data_rev_app. reflexivity.
+    - symmetry. exact Hslen.
+  Qed.
+End WithCodec.
+
+Print Assumptions trace_decode.
+Print Assumptions trace_flush.
